@@ -64,7 +64,23 @@ int scn_main(int argc,char **argv,const scn_ops *ops){
       else if(WEXITSTATUS(st)==98){ ev_begin("Crash"); ev_s("scn",name); ev_i("sig",-98); ev_end(); }
       else if(WEXITSTATUS(st)!=0){ ev_begin("Crash"); ev_s("scn",name); ev_i("sig",-WEXITSTATUS(st)); ev_end(); }
       i=j+1;
-    } else { if(ops->global_line) ops->global_line(tok,nt); i++; }
+    } else {
+      /* set-up lines run in this process; when asked (after a run that died in one) each is first tried in a child so that a
+         library fault while preparing shared material becomes a Crash / Hang event of a scenario of its own instead of a lost run */
+      int skip=0;
+      if(ops->global_line&&getenv("VERIF_PRELUDE_PROBE")){
+        fflush(NULL); pid_t pid=fork();
+        if(pid==0){ signal(SIGALRM,sig_alarm); alarm(120); int fd=ev_fd; ev_fd=open("/dev/null",O_WRONLY); (void)fd; ops->global_line(tok,nt); _exit(0); }
+        int st=0; waitpid(pid,&st,0);
+        if(WIFSIGNALED(st)||WEXITSTATUS(st)!=0){
+          char name[64]; snprintf(name,sizeof name,"prelude-line-%d",i+1); skip=1;
+          ev_begin("Reset"); ev_s("scn",name); ev_end();
+          if(!WIFSIGNALED(st)&&WEXITSTATUS(st)==97){ ev_begin("Hang"); ev_s("scn",name); ev_i("budget",120); ev_end(); }
+          else { ev_begin("Crash"); ev_s("scn",name); ev_i("sig",WIFSIGNALED(st)?WTERMSIG(st):-WEXITSTATUS(st)); ev_end(); }
+        }
+      }
+      if(!skip&&ops->global_line) ops->global_line(tok,nt);
+      i++; }
     free(ln);
   }
   close(ev_fd);
